@@ -285,6 +285,92 @@ Section ConvP.
     replace (fst (tmap V f ch)) with (extents c) in Hd; [exact Hd|].
     unfold tmap. cbn [fst]. symmetry. apply (read_src_shape _ _ _ Hr).
   Qed.
+  (* ---- a destination that is NOT empty ----
+     whatever the destination held before, every position the command visits
+     ends up holding the encoding of the converted source chunk, and positions
+     it does not visit keep what they had *)
+  Definition good_at (dst : store dbytes) (k : list N) (c : coords) : Prop :=
+    forall b, lookup dbytes dst k c = Some b ->
+      check_valid dscales k c = Ok tt /\
+      exists ch, read_chunk (cchunk V) sbytes sdecode sscales src k c = Ok ch /\
+                 dencode k (tmap V f ch) = Ok b.
+
+  Lemma kc_eq_dec : forall a b : list N * coords, {a = b} + {a <> b}.
+  Proof.
+    intros [k1 c1] [k2 c2].
+    destruct (list_eq_dec N.eq_dec k1 k2) as [->|Hk]; [|right; congruence].
+    destruct c1 as [[[[[a1 a2] a3] a4] a5] a6], c2 as [[[[[b1 b2] b3] b4] b5] b6].
+    destruct (Z.eq_dec a1 b1) as [->|?]; [|right; congruence].
+    destruct (Z.eq_dec a2 b2) as [->|?]; [|right; congruence].
+    destruct (Z.eq_dec a3 b3) as [->|?]; [|right; congruence].
+    destruct (Z.eq_dec a4 b4) as [->|?]; [|right; congruence].
+    destruct (Z.eq_dec a5 b5) as [->|?]; [|right; congruence].
+    destruct (Z.eq_dec a6 b6) as [->|?]; [|right; congruence].
+    left; reflexivity.
+  Qed.
+
+  Lemma lookup_cons_other (dst : store dbytes) k c b k' c' :
+    (k', c') <> (k, c) -> lookup dbytes ((k, c, b) :: dst) k' c' = lookup dbytes dst k' c'.
+  Proof.
+    intros Hne. cbn [lookup].
+    destruct (key_eqb k' k && coords_eqb c' c) eqn:E; [|reflexivity].
+    apply andb_true_iff in E. destruct E as [E1 E2].
+    apply key_eqb_eq in E1. apply coords_eqb_eq in E2. subst. exfalso. apply Hne. reflexivity.
+  Qed.
+
+  Lemma fold_cstep_visited : forall l dst0 tr0 dst tr,
+    fold_left cstep l (Ok (dst0, tr0)) = Ok (dst, tr) ->
+    (forall k c, In (k, c) l -> present dst k c /\ good_at dst k c) /\
+    (forall k c, ~ In (k, c) l -> lookup dbytes dst k c = lookup dbytes dst0 k c).
+  Proof.
+    induction l as [|[k c] l IH]; intros dst0 tr0 dst tr H.
+    - cbn [fold_left] in H. injection H as <- <-. split; [intros k c []|reflexivity].
+    - apply fold_cstep_cons in H. destruct H as (dst1 & tr1 & Hs & Hf).
+      apply cstep_ok in Hs. destruct Hs as (ch & b & Hr & Hv & He & -> & ->).
+      destruct (IH _ _ _ _ Hf) as [IHin IHout].
+      split.
+      + intros k' c' [Heq|Hl]; [|apply IHin; exact Hl].
+        injection Heq as <- <-.
+        destruct (in_dec kc_eq_dec (k, c) l) as [Hin|Hnin]; [apply IHin; exact Hin|].
+        assert (lookup dbytes dst k c = Some b) as Hl.
+        { rewrite (IHout k c Hnin). cbn [lookup]. rewrite key_eqb_refl, coords_eqb_refl. reflexivity. }
+        split.
+        * unfold present. rewrite Hl. discriminate.
+        * intros b' Hb'. rewrite Hl in Hb'. injection Hb' as <-.
+          split; [exact Hv|]. exists ch. split; assumption.
+      + intros k' c' Hn.
+        assert ((k', c') <> (k, c)) as Hne by (intro E; apply Hn; left; symmetry; exact E).
+        assert (~ In (k', c') l) as Hn' by (intro E; apply Hn; right; exact E).
+        rewrite (IHout k' c' Hn'). apply lookup_cons_other. exact Hne.
+  Qed.
+
+  Lemma convert_pointwise_populated_sec dst0 dst tr :
+    convert_chunks V f sbytes dbytes sdecode dencode sscales dscales src dst0 = Ok (dst, tr) ->
+    (forall s cs c,
+       In s dscales -> In cs (sc_chunk_sizes s) -> In c (cgrid (sc_size s) cs) ->
+       exists ch,
+         read_chunk (cchunk V) sbytes sdecode sscales src (sc_key s) c = Ok ch /\
+         read_chunk (cchunk V) dbytes ddecode dscales dst (sc_key s) c = Ok (tmap V f ch)) /\
+    (forall k c, ~ In (k, c) (all_chunks (rev dscales)) ->
+       lookup dbytes dst k c = lookup dbytes dst0 k c).
+  Proof.
+    rewrite convert_chunks_flat. intros H.
+    destruct (fold_cstep_visited _ _ _ _ _ H) as [Hin Hout].
+    split; [|exact Hout].
+    intros s cs c Hs Hcs Hc.
+    assert (In (sc_key s, c) (all_chunks (rev dscales))) as Hvis.
+    { apply (in_all_chunks _ s cs c); [|assumption..].
+      apply in_rev. rewrite rev_involutive. exact Hs. }
+    destruct (Hin _ _ Hvis) as [Hp Hg].
+    unfold present in Hp.
+    destruct (lookup dbytes dst (sc_key s) c) as [b|] eqn:El; [|exfalso; apply Hp; reflexivity].
+    destruct (Hg b El) as (Hv & ch & Hr & He).
+    exists ch. split; [exact Hr|].
+    unfold read_chunk. rewrite Hv. cbn [bind]. rewrite El.
+    pose proof (d_roundtrip _ _ _ He) as Hd.
+    replace (fst (tmap V f ch)) with (extents c) in Hd; [exact Hd|].
+    unfold tmap. cbn [fst]. symmetry. apply (read_src_shape _ _ _ Hr).
+  Qed.
 End ConvP.
 
 Lemma convert_fails_on_unreadable_source :
@@ -328,6 +414,26 @@ Proof.
   intros V f sbytes dbytes sdecode dencode ddecode Hrt Hsh sscales dscales src dst tr _ H.
   exact (convert_pointwise_sec V f sbytes dbytes sdecode dencode sscales dscales src
            ddecode Hrt Hsh dst tr H).
+Qed.
+
+Lemma convert_pointwise_populated :
+  forall (V : Type) (f : V -> V) (sbytes dbytes : Type)
+         (sdecode : list N -> sbytes -> triple -> outcome (cchunk V))
+         (dencode : list N -> cchunk V -> outcome dbytes)
+         (ddecode : list N -> dbytes -> triple -> outcome (cchunk V)),
+  (forall k ch b, dencode k ch = Ok b -> ddecode k b (fst ch) = Ok ch) ->
+  (forall k b e ch, sdecode k b e = Ok ch -> fst ch = e) ->
+  forall sscales dscales src (dst0 : store dbytes) dst tr,
+  convert_chunks V f sbytes dbytes sdecode dencode sscales dscales src dst0 = Ok (dst, tr) ->
+  forall s cs c,
+  In s dscales -> In cs (sc_chunk_sizes s) -> In c (cgrid (sc_size s) cs) ->
+  exists ch,
+    read_chunk (cchunk V) sbytes sdecode sscales src (sc_key s) c = Ok ch /\
+    read_chunk (cchunk V) dbytes ddecode dscales dst (sc_key s) c = Ok (tmap V f ch).
+Proof.
+  intros V f sbytes dbytes sdecode dencode ddecode Hrt Hsh sscales dscales src dst0 dst tr H.
+  exact (proj1 (convert_pointwise_populated_sec V f sbytes dbytes sdecode dencode sscales dscales src
+                  ddecode Hrt Hsh dst0 dst tr H)).
 Qed.
 
 (* non-vacuity: a two-scale destination (different chunk sizes, one of them
